@@ -307,7 +307,7 @@ def run_refit(case):
     res = Res()
     seq = case["seq"]  # list of [d, n, layout, sep]
     for cls in ("hgm", "gmm"):
-        for opts in ({"min_points": None, "max_iterations": 1000}, {"min_points": None, "max_iterations": 2}) if cls == "hgm" else ({"k": 2}, {"k": 3}):
+        for opts in ({"min_points": None, "max_iterations": 1000}, {"min_points": None, "max_iterations": 2}, {"min_points": 7, "max_iterations": 1000}) if cls == "hgm" else ({"k": 2}, {"k": 3}):
             def make():
                 if cls == "hgm":
                     return HierarchicalGaussianMixture(n_init=1, threshold_modifier=0.5, covariance_type="full", normalize=case["normalize"], **opts)
@@ -315,6 +315,10 @@ def run_refit(case):
             obj = make()
             hist = []
             for step, (d, n, layout, sep) in enumerate(seq):
+                if step and case.get("via"):  # between two fits the object goes through a pickle round trip / a copy
+                    import copy as _copy
+                    import pickle as _pickle
+                    obj = {"pickle": lambda o: _pickle.loads(_pickle.dumps(o)), "deepcopy": _copy.deepcopy, "copy": _copy.copy}[case["via"]](obj)
                 X, blob = make_data(d, n, layout, sep)
                 w = weight_patterns(len(X), blob)[case["weights"]]
                 hist.append(f"(d={d}, n={len(X)}, {layout}, sep={sep})")
@@ -330,7 +334,7 @@ def run_refit(case):
                 res.evals += 2
                 res.trans += 1
                 used, fresh = outs
-                tag = f"{cls}{opts} fitted in turn on {' then '.join(hist)}"
+                tag = f"{cls}{opts} fitted in turn on {' then '.join(hist)}" + (f" (object passed through {case['via']} between fits)" if case.get("via") else "")
                 cc = dict(case, seq=seq[: step + 1])
                 if isinstance(fresh, Exception):
                     res.bump("fresh_fit_raises")  # owned by the gmm/hgm phases
@@ -341,8 +345,9 @@ def run_refit(case):
                 (lu, Ku), (lf, Kf) = used, fresh
                 if cls == "hgm":
                     sizes = np.bincount(lu, minlength=max(Ku, 1))
-                    if Ku >= 2 and sizes.min() < 2 * d:
-                        res.violate("refit:hgm:min-points", f"{tag}: a split left a child with {sizes.min()} < 2*d = {2 * d} points (cluster sizes {sizes.tolist()})", cc)
+                    mp = opts["min_points"] if opts["min_points"] is not None else 2 * d
+                    if Ku >= 2 and sizes.min() < mp:
+                        res.violate("refit:hgm:min-points", f"{tag}: a split left a child with {sizes.min()} < min_points = {mp} points (cluster sizes {sizes.tolist()})", cc)
                     if Ku > opts["max_iterations"] + 1:
                         res.violate("refit:hgm:cap", f"{tag}: {Ku} clusters, cap {opts['max_iterations'] + 1}", cc)
                 if Ku != Kf or not np.array_equal(lu, lf):
@@ -433,6 +438,7 @@ def plan(ctx):
     pool = [[1, 12, "2blob", 10], [2, 12, "2blob", 10], [3, 24, "3blob", 10], [4, 20, "2blob", 3], [2, 40, "1blob", 0]]
     seqs = [list(p) for r in ((2, 3) if th else (2,)) for p in itertools.permutations(pool, r)]
     rf = [{"kind": "refit", "seq": sq, "normalize": nm, "weights": wn} for sq in seqs for nm in (True, False) for wn in (("uniform", "geom1e-2") if th else ("uniform",))]
+    rf += [{"kind": "refit", "seq": sq, "normalize": True, "weights": "uniform", "via": via} for sq in seqs[:: (1 if th else 2)] for via in ("pickle", "deepcopy", "copy")]
     ctx.bounds["refit_sequences"] = len(rf)
     ctx.explore("object-reuse", rf)
     cf = [{"kind": "cforms", "d": d, "n": n, "layout": lay, "sep": sep, "normalize": nm} for d in (1, 2, 3) for n in (12, 40) for lay, sep in (("2blob", 10), ("3blob", 3), ("1blob", 0), ("dup2", 0)) for nm in (True, False)]
